@@ -2010,6 +2010,13 @@ func (cs *State) addVote(vote *types.Vote, peerID p2p.ID) (added bool, err error
 			return
 		}
 
+		if cs.LastCommit == nil {
+			// At the chain's initial height there is no commit of a previous
+			// height such a vote could belong to.
+			cs.Logger.Debug("precommit vote for the height before the initial height has been ignored", "vote", vote)
+			return
+		}
+
 		added, err = cs.LastCommit.AddVote(vote)
 		if !added {
 			return
